@@ -858,7 +858,12 @@ class Function:
                         continue
                 if pos is None:
                     pos = self.node_positions()
-                if def_node not in pos:
+                pd = pos.get(def_node)
+                if pd is None and is_new and len(n.get("decls", [])) > 1:
+                    # `const T a = e1, b = e2;` — the CFG holds one synthetic declaration per variable; the value is defined where its
+                    # initialiser is evaluated
+                    pd = pos.get(init) or pos.get(self.strip(init))
+                if pd is None:
                     continue
                 uses = [x for x in self.walk() if self.nodes[x]["k"] == "DeclRefExpr" and self.nodes[x]["decl"].get("id") == d["id"]
                         and self.nodes[x]["decl"].get("kind") == "Var" and x != lhs_of_def]
@@ -871,7 +876,7 @@ class Function:
                     while pu is None and x_ >= 0:            # a node the normal form created: the position of the statement that holds it
                         x_ = self.parent[x_]
                         pu = pos.get(x_) if x_ >= 0 else None
-                    if pu is None or self._writes_between(names, pos[def_node], pu, pos, through_caller_pointer=via_param):
+                    if pu is None or self._writes_between(names, pd, pu, pos, through_caller_pointer=via_param):
                         ok = False
                         break
                 if not ok:
@@ -1483,8 +1488,13 @@ class Program:
         STMT_PARENTS = ("CompoundStmt", "IfStmt", "ForStmt", "WhileStmt", "DoStmt", "CaseStmt", "DefaultStmt", "LabelStmt")
         par = f.parent
         # --- the statement that holds the call
+        def same_class(t1, t2):
+            return bool(t1) and (t1 or "").replace("const ", "").replace("&", "").replace(" ", "") == (t2 or "").replace("const ", "").replace("&", "").replace(" ", "")
         top = ci
-        while par[top] >= 0 and f.nodes[par[top]]["k"] in TR:
+        while par[top] >= 0 and (f.nodes[par[top]]["k"] in TR or (
+                # `T v = helper();` with T a class: the (elidable) copy/move construction of v from the returned temporary
+                f.nodes[par[top]]["k"] == "CXXConstructExpr" and [c for c in f.nodes[par[top]]["ch"] if c >= 0] == [top] and
+                same_class(f.nodes[par[top]].get("t"), f.nodes[ci].get("t")))):
             top = par[top]
         pk = f.nodes[par[top]]["k"] if par[top] >= 0 else None
         lhs_node = None       # caller lvalue that receives the result (node id) ...
@@ -1524,6 +1534,12 @@ class Program:
         if multi and (lhs_node is not None or decl_target is not None) and any(not g.ch(r) for r in rets):
             return False
         ret_expr = g.ch(rets[0])[0] if rets and not multi and g.ch(rets[0]) else -1
+        if ret_expr >= 0:
+            # `return local;` of class type: the implicit move construction of the result from the local
+            r0 = g.strip(ret_expr)
+            if g.nodes[r0]["k"] == "CXXConstructExpr" and len(g.ch(r0)) == 1 and g.nodes[g.strip(g.ch(r0)[0])]["k"] == "DeclRefExpr" and \
+                    g.nodes[g.strip(g.ch(r0)[0])]["decl"].get("kind") == "Var" and same_class(g.nodes[r0].get("t"), g.nodes[g.strip(g.ch(r0)[0])].get("t")):
+                ret_expr = g.strip(g.ch(r0)[0])
         if not multi and (lhs_node is not None or decl_target is not None) and ret_expr < 0:
             return False
         is_lambda = g.kind == "lambda"
@@ -1588,7 +1604,7 @@ class Program:
                            (f.nodes[x]["k"] == "BinaryOperator" and f.nodes[x].get("op") == "=") or
                            (f.nodes[x]["k"] == "UnaryOperator" and f.nodes[x].get("op") in ("++", "--")) or
                            "callee" in f.nodes[x] for x in f.walk(a))
-        if not all(pure(a) for k, a in enumerate(args) if g.params[k]["id"] not in alias):
+        if not all(pure(a) or f._pure_names(a) is not None for k, a in enumerate(args) if g.params[k]["id"] not in alias):
             return False
         # --- CFG position of the call statement: one block, contiguous elements
         sub = set(f.walk(S))
@@ -1714,13 +1730,21 @@ class Program:
                         f.nodes[x + off]["decl"] = dict(xdecl)
                 dn = f.nodes[vdecl[0][0] + off]
                 init = vdecl[0][1].get("init", -1)
-                if init is not None and init >= 0:
+                keep_decl = decl_target is not None and vdecl[0][0] in kids
+                if keep_decl:
+                    # `T v = helper();` and the helper declares the local it returns at the top of its body: that declaration IS the
+                    # caller's declaration of v (the scope of v starts a few statements earlier, inside the folded body, and ends where it did)
+                    dn["decls"] = [dict(dn["decls"][0], id=decl_target["id"], name=decl_target["name"])]
+                    f.nodes[S]["ch"] = []
+                    result_aliased = True
+                elif init is not None and init >= 0:
                     f.nodes.append(dict(k="DeclRefExpr", ch=[], t=xdecl.get("type", ""), loc=f.nodes[S]["loc"], f=f.nodes[S].get("f"), synthetic=True, decl=dict(xdecl)))
                     dn.update(dict(k="BinaryOperator", op="=", ch=[len(f.nodes) - 1, init + off], t=xdecl.get("type", ""), synthetic=True))
                 else:
                     dn.update(dict(k="NullStmt", ch=[], synthetic=True))
-                dn.pop("decls", None)
-                if decl_target is not None:
+                if not keep_decl:
+                    dn.pop("decls", None)
+                if decl_target is not None and not keep_decl:
                     f.nodes[S]["ch"] = [x for x in f.nodes[S]["ch"] if x != decl_target.get("init")]
                     decl_target["init"] = -1
                     body_kids = [S] + body_kids
@@ -1781,6 +1805,7 @@ class Program:
                     nb[key] = gbk[key] + off
             blocks.append(nb)
         blocks.append(B2)
+        f.nodes[ci]["ch"] = []          # the call itself has left the tree: its arguments belong to the folded body now
         f._blocks = None
         f._parent = None
         f.d.setdefault("foldedHelpers", []).append(g.name)
